@@ -1,9 +1,9 @@
 (* Proofs about model/VolumeCrash.v (C03), part 3: the crash-safety statement, its proof at
-   every crash point that write order allows, the two findings (refuted full statements with
-   their partial versions), and concrete crash points. *)
+   every crash point that write order allows, and concrete crash points (among them those of
+   the two repaired findings). *)
 From Coq Require Import List NArith ZArith Bool Lia ZifyBool ZifyN ZifyNat.
 From SW Require Import model.Needle proof.NeedleProofs model.VolumeCrash proof.VolumeCrashProofs
-  proof.VolumeCrashLoad proof.VolumeCrashSim proof.VolumeCrashSpec.
+  proof.VolumeCrashLoad proof.VolumeCrashSpec.
 Import ListNotations.
 Local Open Scope N_scope.
 Ltac Zify.zify_post_hook ::= Z.div_mod_to_equations.
@@ -22,26 +22,18 @@ Arguments Z.to_N : simpl never.
 Arguments Z.ltb : simpl never.
 Arguments Z.eqb : simpl never.
 
-(* The property at one crash point of history [h]: the volume comes up, writable; and from then
-   on it is indistinguishable from the volume that ran [h1] -- the operations whose index
-   entries survived -- and never stopped: after ANY further operations [h'] (fresh keys,
-   overwrites, rewrites of deleted keys, deletes, refused writes ...) every key reads exactly as
-   in the running volume after [h1 ++ h'], and every further operation is answered as the
-   running volume answers it.  (h' = [] : blobs that reached both files come back with their
-   content and deleted ones stay deleted.)  Keys for which [dirty] holds at the crash point are
-   exempt. *)
-Definition crash_safe_upto (dirty : pstate -> N -> bool) (crc : list N -> N) (h : list op) (dcut icut : N) : Prop :=
+(* The property at one crash point of history [h]: the volume comes up, writable; every key
+   reads exactly as it did in the running volume right after [h1], the operations whose index
+   entries survived (so blobs that reached both files come back with their content and deleted
+   ones stay deleted); and a fresh blob can be written and read back. *)
+Definition crash_safe_at (crc : list N -> N) (h : list op) (dcut icut : N) : Prop :=
   exists h1 h2 L,
     h = h1 ++ h2 /\ len (p_idx (p_run h1)) = icut / NeedleMapEntrySize /\
     load crc (crash (p_run h) dcut icut) = Loaded L /\ l_nwod L = false /\
-    forall h', Forall (wf_any crc) h' ->
-      (forall k, dirty (p_run h1) k = false ->
-         l_read crc (l_after crc L h') k = p_read (p_run (h1 ++ h')) k) /\
-      (forall o, wf_any crc o -> dirty (p_run h1) (op_key o) = false ->
-         snd (l_step crc (l_after crc L h') o) = p_res (p_run (h1 ++ h')) o).
-
-(* no key exempt *)
-Definition crash_safe_at : (list N -> N) -> list op -> N -> N -> Prop := crash_safe_upto (fun _ _ => false).
+    (forall k, l_read crc L k = p_read (p_run h1) k) /\
+    (forall n, rec_ok n -> data n <> [] -> checksum n = crc (data n) ->
+       (forall o, In o h -> op_key o <> id n) ->
+       exists L2, l_write crc L n = (L2, WOk) /\ l_read crc L2 (id n) = ROk (dview Ver n)).
 
 Lemma p_run_app : forall h1 h2, p_run (h1 ++ h2) = fold_left p_step h2 (p_run h1).
 Proof. intros. unfold p_run. apply fold_left_app. Qed.
@@ -52,8 +44,50 @@ Proof. intros. unfold idx_of, len. rewrite map_length. reflexivity. Qed.
 Section WithCrc.
   Variable crc : list N -> N.
 
+  (* every record carries the key of one of the operations *)
+  Definition from_ops (h : list op) (l : list (N * arec)) : Prop :=
+    forall o r, In (o, r) l -> exists x, In x h /\ op_key x = id (a_n r).
+
+  Lemma recs_from_ops_fold : forall h2 h1 st, from_ops h1 (p_recs st) ->
+    from_ops (h1 ++ h2) (p_recs (fold_left p_step h2 st)).
+  Proof.
+    induction h2 as [|o h2 IH]; intros h1 st H.
+    - rewrite app_nil_r. assumption.
+    - cbn [fold_left]. replace (h1 ++ o :: h2) with ((h1 ++ [o]) ++ h2) by (rewrite <- app_assoc; reflexivity).
+      apply IH. intros o0 r Hin.
+      assert (Hold : In (o0, r) (p_recs st) -> exists x, In x (h1 ++ [o]) /\ op_key x = id (a_n r)).
+      { intros Hi. destruct (H _ _ Hi) as [x [Hx Hk]]. exists x. split; [apply in_or_app; left; assumption|assumption]. }
+      assert (Hnew : forall r', op_key o = id (a_n r') -> exists x, In x (h1 ++ [o]) /\ op_key x = id (a_n r')).
+      { intros r' Hk. exists o. split; [apply in_or_app; right; left; reflexivity|assumption]. }
+      destruct o as [n|k c ts]; cbn [p_step] in Hin.
+      + unfold p_write in Hin. destruct (p_unchanged st n); [auto|].
+        destruct (negb (p_cookie_ok st n)); [auto|].
+        destruct (match nm_get (p_map st) (id n) with Some nv => nv_off nv * 8 <? len (p_dat st) | None => true end);
+          unfold p_append in Hin; cbn [p_recs] in Hin; apply in_app_or in Hin;
+          (destruct Hin as [Hi|[Hi|[]]]; [auto|]); inversion Hi; subst; apply Hnew; reflexivity.
+      + unfold p_delete in Hin. destruct (nm_get (p_map st) k) as [nv|]; [|auto].
+        destruct (size_valid (nv_size nv)); [|auto].
+        unfold p_append in Hin; cbn [p_recs] in Hin; apply in_app_or in Hin.
+        destruct Hin as [Hi|[Hi|[]]]; [auto|]. inversion Hi; subst. apply Hnew. reflexivity.
+  Qed.
+
+  Lemma recs_from_ops : forall h, from_ops h (p_recs (p_run h)).
+  Proof. intros h. apply (recs_from_ops_fold h [] p_init). intros o r []. Qed.
+
+  (* a key no operation mentions is not in the needle map *)
+  Lemma fresh_key_unbound : forall h k, Forall (wf_op crc) h -> (forall o, In o h -> op_key o <> k) ->
+    nm_get (p_map (p_run h)) k = None.
+  Proof.
+    intros h k Hwf Hfresh. pose proof (inv_run crc h Hwf) as HI.
+    destruct (nm_get (p_map (p_run h)) k) as [nv|] eqn:Eg; [|reflexivity]. exfalso.
+    destruct (map_from_idx crc _ HI k nv Eg) as [e [Hin [Hk _]]].
+    destruct (entry_in_idx crc _ e HI Hin) as [o [r [Hr He]]].
+    destruct (recs_from_ops h o r Hr) as [x [Hx Hkx]].
+    apply (Hfresh x Hx). rewrite Hkx, <- Hk, He. reflexivity.
+  Qed.
+
   (* every number of index entries is the index length of some prefix of the history *)
-  Lemma split_at_index : forall h ie, Forall (wf_any crc) h -> ie <= len (p_idx (p_run h)) ->
+  Lemma split_at_index : forall h ie, Forall (wf_op crc) h -> ie <= len (p_idx (p_run h)) ->
     exists h1 h2, h = h1 ++ h2 /\ len (p_idx (p_run h1)) = ie.
   Proof.
     induction h as [|o h IH] using rev_ind; intros ie Hwf Hle.
@@ -92,20 +126,12 @@ Section WithCrc.
       rewrite (inv_dat crc st1 HI), Hs, len_dat_of, cat_app, len_app. cbn [cat map concat snd]. rewrite app_nil_r. lia.
   Qed.
 
-  (* ---------- what comes up at a crash point that write order allows ---------- *)
-  (* for either needle map kind: the whole surviving index [p_idx (p_run h1)], the map replayed
-     from it, a writable volume, a data file that still starts with the data file of [p_run h1]
-     -- and IS that data file unless [garbage_cut] *)
-  Lemma reopen_core : forall kind h dcut icut, Forall (wf_any crc) h ->
+  (* ---------- the property at every admissible crash point ---------- *)
+  Theorem crash_safe : forall h dcut icut, Forall (wf_op crc) h ->
     admissible (p_run h) dcut icut = true ->
-    exists h1 h2 D,
-      h = h1 ++ h2 /\ len (p_idx (p_run h1)) = icut / NeedleMapEntrySize /\
-      load_k crc kind (crash (p_run h) dcut icut)
-        = Loaded {| l_dat := D; l_idx := p_idx (p_run h1); l_map := load_map kind (p_idx (p_run h1)); l_nwod := false |} /\
-      good_dat (p_run h1) D /\
-      (garbage_cut dcut icut = false -> d_bytes D = p_dat (p_run h1) /\ d_fsize D = len (p_dat (p_run h1))).
+    crash_safe_at crc h dcut icut.
   Proof.
-    intros kind h dcut icut Hwf Hadm.
+    intros h dcut icut Hwf Hadm.
     unfold admissible in Hadm.
     remember (icut / NeedleMapEntrySize) as ie eqn:Eie.
     apply andb_true_iff in Hadm. destruct Hadm as [Hadm Hend]. apply andb_true_iff in Hadm. destruct Hadm as [Hicut Hdcut].
@@ -122,187 +148,31 @@ Section WithCrc.
     set (T := takeN (dcut - len (p_dat st1)) X).
     set (torn := if ie <? len (p_idx st) then icut mod NeedleMapEntrySize else 0).
     assert (Hcrash : crash st dcut icut = {| f_dat := p_dat st1 ++ T; f_idx := p_idx st1; f_torn := torn |}).
-    { unfold crash, crash_e, cut_files. rewrite <- Eie. f_equal.
+    { unfold crash. rewrite <- Eie. f_equal.
       - rewrite EX. apply takeN_app_ge. assumption.
       - rewrite EY. apply takeN_app. assumption. }
-    destruct (load_core crc kind st1 T torn HI1) as [D [Hload [HD Hex]]].
-    exists h1, h2, D.
-    split; [assumption|]. split; [rewrite <- Eie; exact Hlen|]. split; [rewrite Hcrash; assumption|]. split; [assumption|].
-    intros Hg. apply Hex. unfold garbage_cut in Hg. rewrite <- Eie in Hg.
-    destruct (ie =? 0) eqn:E0.
-    - right. destruct (len_dat_ge8 crc st1 HI1) as [H8 _]. unfold SuperBlockSize in Hg.
-      unfold T. replace (dcut - len (p_dat st1)) with 0 by lia. apply takeN_0.
-    - left. intros Hnil. rewrite Hnil in Hrl. cbn in Hrl. lia.
+    destruct (load_core crc st1 T torn HI1) as [D [Hload HD]].
+    exists h1, h2, {| l_dat := D; l_idx := p_idx st1; l_map := p_map st1; l_nwod := false |}.
+    split; [assumption|]. split; [rewrite <- Eie; exact Hlen|]. split; [change (p_run h) with st; rewrite Hcrash; assumption|]. split; [reflexivity|]. split.
+    - intros k. apply read_core; assumption.
+    - intros n Hok Hne Hck Hfresh. apply write_core; try assumption.
+      apply fresh_key_unbound; [assumption|]. intros o Ho. apply Hfresh. rewrite Hh. apply in_or_app. left. assumption.
   Qed.
 
-  (* ---------- the property at every admissible crash point, per key ---------- *)
-  (* PARTIAL (finding 0): every key that is not bound to an empty blob when the volume stops *)
-  Theorem crash_safe_partial : forall h dcut icut, Forall (wf_any crc) h ->
-    admissible (p_run h) dcut icut = true ->
-    crash_safe_upto empty_live crc h dcut icut.
-  Proof.
-    intros h dcut icut Hwf Hadm.
-    destruct (reopen_core KMemory h dcut icut Hwf Hadm) as [h1 [h2 [D [Hh [Hlen [Hload [HD _]]]]]]].
-    assert (Hwf1 : Forall (wf_any crc) h1) by (rewrite Hh in Hwf; apply Forall_app in Hwf; tauto).
-    pose proof (inv_run crc h1 Hwf1) as HI1.
-    exists h1, h2, {| l_dat := D; l_idx := p_idx (p_run h1); l_map := load_compact (p_idx (p_run h1)); l_nwod := false |}.
-    split; [assumption|]. split; [assumption|]. split; [exact Hload|]. split; [reflexivity|].
-    intros h' Hwf'. rewrite p_run_app.
-    pose proof (sim_reopen crc (p_run h1) D (p_idx (p_run h1)) HI1 HD) as HS0.
-    pose proof (sim_after crc _ h' _ _ HS0 Hwf') as HS.
-    split.
-    - intros k Hk. apply (sim_read crc _ _ _ k HS Hk).
-    - intros o Ho Hk. apply (sim_step crc _ _ _ o HS Ho). assumption.
-  Qed.
-
-  (* FULL, for histories that store no empty blob: no key is exempt *)
-  Theorem crash_safe : forall h dcut icut, Forall (wf_op crc) h ->
-    admissible (p_run h) dcut icut = true ->
-    crash_safe_at crc h dcut icut.
-  Proof.
-    intros h dcut icut Hwf Hadm.
-    destruct (crash_safe_partial h dcut icut (wf_ops_any crc h Hwf) Hadm) as [h1 [h2 [L [Hh [Hlen [Hload [Hn Hc]]]]]]].
-    assert (Hwf1 : Forall (wf_op crc) h1) by (rewrite Hh in Hwf; apply Forall_app in Hwf; tauto).
-    exists h1, h2, L. split; [assumption|]. split; [assumption|]. split; [assumption|]. split; [assumption|].
-    intros h' Hwf'. destruct (Hc h' Hwf') as [Hr Hs]. split.
-    - intros k _. apply Hr. apply no_empty_live. assumption.
-    - intros o Ho _. apply Hs; [assumption|]. apply no_empty_live. assumption.
-  Qed.
-
-  (* ... in terms of the operations: after the reopen and any further operations the volume
-     answers every key as the operation-level specification says after h1 ++ h' *)
+  (* ... in terms of the operations: the reopened volume reads as the specification says after
+     the operations h1 whose records are the [icut / 16] surviving index entries *)
   Theorem crash_safe_per_spec : forall h dcut icut, Forall (wf_op crc) h ->
     admissible (p_run h) dcut icut = true ->
     exists h1 h2 L, h = h1 ++ h2 /\ snd (s_run h1) = icut / NeedleMapEntrySize /\
       load crc (crash (p_run h) dcut icut) = Loaded L /\ l_nwod L = false /\
-      forall h', Forall (wf_any crc) h' ->
-        forall k, l_read crc (l_after crc L h') k = s_read (fst (s_run (h1 ++ h'))) k.
+      forall k, l_read crc L k = s_read (fst (s_run h1)) k.
   Proof.
     intros h dcut icut Hwf Ha.
-    destruct (crash_safe h dcut icut Hwf Ha) as [h1 [h2 [L [Hh [Hlen [Hl [Hn Hc]]]]]]].
-    assert (Hwf1 : Forall (wf_any crc) h1) by (apply wf_ops_any; rewrite Hh in Hwf; apply Forall_app in Hwf; tauto).
-    destruct (running_reads_spec crc h1 Hwf1) as [Hs1 _].
+    destruct (crash_safe h dcut icut Hwf Ha) as [h1 [h2 [L [Hh [Hlen [Hl [Hn [Hr _]]]]]]]].
+    assert (Hwf1 : Forall (wf_op crc) h1) by (rewrite Hh in Hwf; apply Forall_app in Hwf; tauto).
+    destruct (running_reads_spec crc h1 Hwf1) as [Hs1 Hs2].
     exists h1, h2, L. split; [assumption|]. split; [rewrite Hs1; assumption|]. split; [assumption|].
-    split; [assumption|]. intros h' Hwf' k. destruct (Hc h' Hwf') as [Hr _]. rewrite (Hr k eq_refl).
-    apply running_reads_spec. apply Forall_app. split; assumption.
-  Qed.
-
-  (* ---------- LevelDB needle map: the same, with "deleted" and "unknown" identified ---------- *)
-  Theorem crash_safe_leveldb_partial : forall h dcut icut, Forall (wf_any crc) h ->
-    admissible (p_run h) dcut icut = true ->
-    exists h1 h2 L, h = h1 ++ h2 /\ len (p_idx (p_run h1)) = icut / NeedleMapEntrySize /\
-      load_k crc KLevelDb (crash (p_run h) dcut icut) = Loaded L /\ l_nwod L = false /\
-      forall k, empty_live (p_run h1) k = false -> l_read crc L k = absent_norm (p_read (p_run h1) k).
-  Proof.
-    intros h dcut icut Hwf Hadm.
-    destruct (reopen_core KLevelDb h dcut icut Hwf Hadm) as [h1 [h2 [D [Hh [Hlen [Hload [HD _]]]]]]].
-    assert (Hwf1 : Forall (wf_any crc) h1) by (rewrite Hh in Hwf; apply Forall_app in Hwf; tauto).
-    pose proof (inv_run crc h1 Hwf1) as HI1.
-    eexists h1, h2, _. split; [assumption|]. split; [assumption|]. split; [exact Hload|]. split; [reflexivity|].
-    intros k Hk. cbn [load_map].
-    rewrite (ldb_read crc D (p_idx (p_run h1)) (p_idx (p_run h1)) false false (p_idx (p_run h1)) k).
-    f_equal. pose proof (sim_reopen crc (p_run h1) D (p_idx (p_run h1)) HI1 HD) as HS0.
-    apply (sim_read crc _ _ _ k HS0 Hk).
-  Qed.
-
-  (* ---------- the files themselves; a second stop ---------- *)
-  (* PARTIAL (finding 1): unless nothing of the index survives while bytes lie behind the super
-     block, both files of the reopened volume ARE the files of the volume that ran h1 (so a scan
-     of the data file visits exactly the records of h1) ... *)
-  Theorem reopen_files_exact : forall h dcut icut, Forall (wf_any crc) h ->
-    admissible (p_run h) dcut icut = true -> garbage_cut dcut icut = false ->
-    exists h1 h2 L, h = h1 ++ h2 /\ len (p_idx (p_run h1)) = icut / NeedleMapEntrySize /\
-      load crc (crash (p_run h) dcut icut) = Loaded L /\ files_eq L (p_run h1).
-  Proof.
-    intros h dcut icut Hwf Hadm Hg.
-    destruct (reopen_core KMemory h dcut icut Hwf Hadm) as [h1 [h2 [D [Hh [Hlen [Hload [HD Hex]]]]]]].
-    destruct (Hex Hg) as [Hb Hf].
-    eexists h1, h2, _. split; [assumption|]. split; [assumption|]. split; [exact Hload|].
-    unfold files_eq. cbn [l_dat l_idx]. auto.
-  Qed.
-
-  (* ... and stay so under every further operation when the history stores no empty blob: the
-     reopened volume that then served h' holds byte for byte the files of a volume that ran
-     h1 ++ h' without stopping.  A second stop is therefore a first stop of that volume, and
-     [crash_safe] applies to it again. *)
-  Theorem reopen_files_exact_after : forall h dcut icut, Forall (wf_op crc) h ->
-    admissible (p_run h) dcut icut = true -> garbage_cut dcut icut = false ->
-    exists h1 h2 L, h = h1 ++ h2 /\ len (p_idx (p_run h1)) = icut / NeedleMapEntrySize /\
-      load crc (crash (p_run h) dcut icut) = Loaded L /\
-      forall h', Forall (wf_any crc) h' -> files_eq (l_after crc L h') (p_run (h1 ++ h')).
-  Proof.
-    intros h dcut icut Hwf Hadm Hg.
-    destruct (reopen_core KMemory h dcut icut (wf_ops_any crc h Hwf) Hadm) as [h1 [h2 [D [Hh [Hlen [Hload [HD Hex]]]]]]].
-    destruct (Hex Hg) as [Hb Hf].
-    assert (Hwf1 : Forall (wf_op crc) h1) by (rewrite Hh in Hwf; apply Forall_app in Hwf; tauto).
-    pose proof (inv_run crc h1 (wf_ops_any crc h1 Hwf1)) as HI1.
-    eexists h1, h2, _. split; [assumption|]. split; [assumption|]. split; [exact Hload|].
-    intros h' Hwf'. rewrite p_run_app. cbn [load_map].
-    pose proof (sim_reopen crc (p_run h1) D (p_idx (p_run h1)) HI1 HD) as HS0.
-    assert (HS1 : SimLP crc (fun _ => false)
-              {| l_dat := D; l_idx := p_idx (p_run h1); l_map := load_compact (p_idx (p_run h1)); l_nwod := false |} (p_run h1)).
-    { destruct HS0 as [A1 A2 A3 A4]. constructor; try assumption.
-      intros k _. apply A4. apply no_empty_live. assumption. }
-    apply files_after; [assumption| |assumption].
-    unfold files_eq. cbn [l_dat l_idx]. auto.
-  Qed.
-
-  Theorem second_stop_safe : forall h dcut icut, Forall (wf_op crc) h ->
-    admissible (p_run h) dcut icut = true -> garbage_cut dcut icut = false ->
-    exists h1 h2 L, h = h1 ++ h2 /\ load crc (crash (p_run h) dcut icut) = Loaded L /\
-      forall h' d2 i2, Forall (wf_op crc) h' -> admissible (p_run (h1 ++ h')) d2 i2 = true ->
-        let L' := l_after crc L h' in
-        cut_files (d_bytes (l_dat L')) (l_idx L') NeedleMapEntrySize d2 i2 = crash (p_run (h1 ++ h')) d2 i2 /\
-        crash_safe_at crc (h1 ++ h') d2 i2.
-  Proof.
-    intros h dcut icut Hwf Hadm Hg.
-    destruct (reopen_files_exact_after h dcut icut Hwf Hadm Hg) as [h1 [h2 [L [Hh [_ [Hload Hf]]]]]].
-    assert (Hwf1 : Forall (wf_op crc) h1) by (rewrite Hh in Hwf; apply Forall_app in Hwf; tauto).
-    exists h1, h2, L. split; [assumption|]. split; [assumption|].
-    intros h' d2 i2 Hwf' Hadm2. cbv zeta. split.
-    - destruct (Hf h' (wf_ops_any crc h' Hwf')) as [E1 [_ E3]]. unfold crash, crash_e. rewrite E1, E3. reflexivity.
-    - apply crash_safe; [apply Forall_app; split; assumption|assumption].
-  Qed.
-
-  (* ---------- the header scan of a running volume visits exactly its records ---------- *)
-  Definition visit_of (p : N * arec) : N * N * N := (id (a_n (snd p)), fst p, body_size (a_n (snd p))).
-
-  Lemma scan_hdr_cat : forall l fuel off, recs_ok crc l -> lay off l -> (length l <= fuel)%nat ->
-    scan_hdr_from fuel (cat l) off = Some (map visit_of l).
-  Proof.
-    induction l as [|[o r] l IH]; intros fuel off Hok Hlay Hfuel.
-    - destruct fuel; reflexivity.
-    - destruct fuel as [|fuel]; [cbn in Hfuel; lia|]. cbn [length] in Hfuel.
-      inversion Hok as [|? ? Hr Hl]; subst. cbn [snd] in Hr. destruct Hlay as [Ho Hlay]. subst o.
-      cbn [scan_hdr_from]. rewrite cat_cons.
-      pose proof (len_encode_ge Ver (a_n r)) as H16.
-      destruct (len (encode Ver (a_n r) ++ cat l) <? NeedleHeaderSize) eqn:E1;
-        [rewrite len_app in E1; unfold NeedleHeaderSize in E1; lia|].
-      destruct Hr as [[Henc Hrng] _]. pose proof Hrng as [Hc [Hi [Hb31 _]]].
-      assert (Hb32 : body_size (a_n r) < 2 ^ 32)
-        by (change (2 ^ 32) with 4294967296; change (2 ^ 31) with 2147483648 in Hb31; lia).
-      rewrite encode_split, (parse_header_bytes (a_n r) _ Hc Hi Hb32), <- encode_split.
-      change (2 ^ 31) with 2147483648 in Hb31.
-      replace (2147483648 <=? body_size (a_n r)) with false by lia.
-      assert (Hstep : NeedleHeaderSize + body_length (body_size (a_n r)) Ver = len (encode Ver (a_n r))).
-      { rewrite (len_encode Ver (a_n r) Henc). reflexivity. }
-      rewrite Hstep, dropN_app by reflexivity.
-      rewrite (IH fuel (off + len (encode Ver (a_n r)))); [reflexivity|assumption|assumption|lia].
-  Qed.
-
-  Lemma length_cat_ge : forall l, (length l <= length (cat l))%nat.
-  Proof.
-    induction l as [|[o r] l IH]; [cbn; lia|]. rewrite cat_cons, app_length. cbn [length].
-    pose proof (len_encode_ge Ver (a_n r)) as H. unfold len in H. lia.
-  Qed.
-
-  Theorem scan_running : forall st, Inv crc st -> scan_hdr (p_dat st) = Some (map visit_of (p_recs st)).
-  Proof.
-    intros st HI. unfold scan_hdr. rewrite (inv_dat crc st HI). unfold dat_of.
-    rewrite dropN_app by reflexivity. apply scan_hdr_cat.
-    - apply (inv_ok crc st HI).
-    - apply (inv_lay crc st HI).
-    - rewrite app_length. pose proof (length_cat_ge (p_recs st)). lia.
+    split; [assumption|]. intros k. rewrite Hr. apply Hs2.
   Qed.
 End WithCrc.
 
@@ -329,3 +199,48 @@ Lemma w_layout : map fst (p_recs (p_run w_history)) = [8; 48; 96; 128] /\ len (p
 Proof. vm_compute. split; reflexivity. Qed.
 
 Definition w_fresh : needle := w_needle 9 7 [102; 114; 101; 115; 104] 0.
+
+(* the crash point of the repaired finding c03-tombstone-tail-readonly: three index entries
+   survive (the last one is the tombstone of key 1) and the data file holds five more bytes, the
+   beginning of the fourth record.  The tail is cut, the volume is writable, key 1 stays deleted. *)
+Lemma witness_tombstone_tail :
+  admissible (p_run w_history) 133 48 = true /\ tombstone_tail (p_run w_history) 133 48 = true /\
+  observe toy_crc (crash (p_run w_history) 133 48) [1; 2; 3] w_fresh =
+    {| o_load := 0; o_readonly := false; o_dat_len := 128; o_idx_len := 48;
+       o_reads := [(2, 0, []); (0, 305419896, [119; 111; 114; 108; 100; 33; 33]); (1, 0, [])];
+       o_write := 0; o_fresh := (0, 7, [102; 114; 101; 115; 104]); o_dat_len2 := 168; o_idx_len2 := 64 |}.
+Proof. vm_compute. repeat split; reflexivity. Qed.
+
+(* the same with a whole fourth record behind the tombstone *)
+Lemma witness_tombstone_then_record :
+  admissible (p_run w_history) 176 48 = true /\ tombstone_tail (p_run w_history) 176 48 = true /\
+  observe toy_crc (crash (p_run w_history) 176 48) [1; 2; 3] w_fresh =
+    {| o_load := 0; o_readonly := false; o_dat_len := 128; o_idx_len := 48;
+       o_reads := [(2, 0, []); (0, 305419896, [119; 111; 114; 108; 100; 33; 33]); (1, 0, [])];
+       o_write := 0; o_fresh := (0, 7, [102; 114; 101; 115; 104]); o_dat_len2 := 168; o_idx_len2 := 64 |}.
+Proof. vm_compute. repeat split; reflexivity. Qed.
+
+(* the crash point of the repaired finding c03-torn-index-entry-panic: the second index entry is
+   torn after 7 bytes.  The torn bytes are dropped and the volume comes up with one entry. *)
+Lemma witness_torn_index :
+  admissible (p_run w_history) 96 23 = true /\ torn_index 23 = true /\
+  observe toy_crc (crash (p_run w_history) 96 23) [1; 2; 3] w_fresh =
+    {| o_load := 0; o_readonly := false; o_dat_len := 48; o_idx_len := 16;
+       o_reads := [(0, 17, [104; 101; 108; 108; 111]); (1, 0, []); (1, 0, [])];
+       o_write := 0; o_fresh := (0, 7, [102; 114; 101; 115; 104]); o_dat_len2 := 88; o_idx_len2 := 32 |}.
+Proof. vm_compute. repeat split; reflexivity. Qed.
+
+(* one more crash point of the same history: two index entries, the data file cut nine bytes
+   into the tombstone's record *)
+Lemma witness_torn_record :
+  admissible (p_run w_history) 105 32 = true /\
+  observe toy_crc (crash (p_run w_history) 105 32) [1; 2; 3] w_fresh =
+    {| o_load := 0; o_readonly := false; o_dat_len := 96; o_idx_len := 32;
+       o_reads := [(0, 17, [104; 101; 108; 108; 111]); (0, 305419896, [119; 111; 114; 108; 100; 33; 33]); (1, 0, [])];
+       o_write := 0; o_fresh := (0, 7, [102; 114; 101; 115; 104]); o_dat_len2 := 136; o_idx_len2 := 48 |}.
+Proof. vm_compute. repeat split; reflexivity. Qed.
+
+(* a crash point that write order excludes (the index is ahead of the data: two entries, the
+   second record missing) is outside the theorem; the safety half still covers it *)
+Lemma not_admissible_example : admissible (p_run w_history) 60 32 = false.
+Proof. vm_compute. reflexivity. Qed.
